@@ -125,14 +125,14 @@ PROPS = {
 REQUIRED = {
  'C01':['transfer_conserves','transfer_others_untouched','sweep_moves_exactly','payout_conserves','applySend_total','handle_total','vesting_never_changes_supply','distributor_block_ledger','bank_send_ledger','bank_burn_ledger','tie_bank_mutators','tie_minter_before_distributor'],
  'C02':['path_independent','cadence_irrelevant','valid_of_validate','linear_exact','carry_exact','exParams_valid'],
- 'C03':['books_after_block','books_after_block_nonvacuous','books_after_block_bridge','bridge_checked_block','allSubOkB_sound','nonnegB_sound','validated_params_books','faithful_sub_step'],
+ 'C03':['books_after_block','books_after_block_nonvacuous','books_after_block_bridge','bridge_checked_block','allSubOkB_sound','nonnegB_sound','validated_params_books','faithful_sub_step','faithful_block_books','reach_blockInv','books_after_every_block','reach_nonNegativeStates','faithful_block_nonvacuous','blockInv_empty'],
  'C04':['share_truncation','allocation_conserves','no_main_dest_all_to_states','cumulative_allocation','payout_carry','cumulative_receipts_drift','faithful_allocation_conserves','distShares_states'],
  'C05':['withdraw_keeps_poolOk','send_keeps_poolOk','withdraw_locked_delta','rejected_noop','createPool_inv','withdrawAll_inv','sendToNew_inv','createVA_same','splitCoins_same','handle_inv','deliver_inv','backed_over_histories','c05_every_reachable_state','inv_implies_registered','inv_genesis'],
  'C06':['locked_nothing','matured_everything','withdraw_twice_total','withdraw_idempotent','query_agrees'],
  'C07':['unlock_exact','orig_over_releases','unlock_exact_nonvacuous'],
- 'C08':['vestedPart_exact','vestedPart_bounds','newVestingAccount_post','send_above_locked_fails','bumpLast_adds_exactly'],
+ 'C08':['vestedPart_exact','vestedPart_bounds','newVestingAccount_post','send_above_locked_fails','bumpLast_adds_exactly','createVA_post'],
  'C09':['newCva_other','send_keeps_existing','createVA_rejects_existing','newVestingAccount_rejects_existing','splitCoins_rejects_existing','unlock_shape','keepsExcept_splitCoins','existing_untouched','existing_untouched_history','tie_account_writers'],
- 'C10':['minter_no_halt','no_negative_sub','validated_denom','tie_no_unguarded_int64'],
+ 'C10':['minter_no_halt','no_negative_sub','validated_denom','tie_no_unguarded_int64','distributor_block_completes','distributor_never_halts','distributor_block_nonvacuous'],
  'C11':['last_occurrence_order_irrelevant','tie_nondet_sites'],
  'C12':['minter_roundtrip','minter_behaviour_preserved','distr_state_roundtrip','period_roundtrip','sig_roundtrip_fails'],
  'C13':['minter_authority_only','distr_full_stored_valid','distr_sub_stored_valid','distr_share_stored_valid','distr_burn_stored_valid','denom_frozen','minter_update_requires_current'],
@@ -141,7 +141,7 @@ REQUIRED = {
  'C16':['splitOne_conserves','four_splits_succeed','migrate_v3_fieldwise','migrate_v2_locked','shift_keeps_amounts','minter_migration_same_schedule','minter_migration_valid','minter_migration_succeeds','legacy_zero_exp_not_migratable','distr_migration_same_shares','tie_upgrade_orchestration'],
  'C17':['split_lineage','send_lineage','chain_lineage','splitCoins_lineage','sendToNew_lineage','other_messages_keep_traces','summary_shape'],
  'C18':['withdraw_events_sum','distribution_events_sum','distShares_sum'],
- 'C19':['inflation_zero_before_start','inflation_zero_nominting','inflation_zero_exp_ended','rate_linear','rate_exp_uses_step_amount','exp_interval','lin_interval'],
+ 'C19':['inflation_zero_before_start','inflation_zero_nominting','inflation_zero_exp_ended','inflation_zero_lin_ended','inflation_zero_ended','rate_linear','rate_exp_uses_step_amount','exp_interval','lin_interval'],
  'C20':['sig_publish_no_panic','sig_store_no_panic','withdraw_no_panic','tie_handlers'],
 }
 for _c, _names in REQUIRED.items():
